@@ -48,6 +48,7 @@ type Model struct {
 	WrittenV map[int64]map[string]bool // per committed version: keys written (Set) during it, for C15
 	NormalV  map[int64]bool            // per committed version: writes were ascending, one per key, effective (C15 hash clause)
 	wlog     []wentry                  // write log of the working version
+	Genesis  int64                     // first version ever committed in this store (0 = none)
 }
 
 type wentry struct {
@@ -135,6 +136,9 @@ func (m *Model) SaveVersion() ([]byte, int64, bool) {
 		m.WorkC = m.Conts[target].clone()
 		m.resetWritten()
 		return h, target, true
+	}
+	if m.Genesis == 0 && m.Latest == 0 {
+		m.Genesis = target
 	}
 	root := ref.Commit(m.Work, target)
 	m.checkContents(root, m.WorkC)
